@@ -198,7 +198,51 @@ def check_mutable_defaults(run, A, module_prefixes=None):
     run.count('mutable default arguments examined', n)
 
 
+def check_memoised_results(run, A):
+    """R-STATE: a PUBLIC function that memoises its results (functools.lru_cache / cache) and returns arrays hands the same writable objects to every caller with equal
+    arguments: what one caller does to its result is what the next caller receives.  Accepted: results that are not arrays (numbers, strings, tuples of those), arrays
+    that the function marks read-only (`setflags(write=False)` / `.flags.writeable = False`) before returning them, and private helpers (their call sites are inside the
+    package: an in-place effect that reaches their result is reported by the effect analysis)."""
+    from ..absint import MEMOISING_DECORATORS
+    n = 0
+    for fn in A.prog.all_funcs():
+        if not any(fn.mod.name == m.rstrip('.') or fn.mod.name.startswith(m) for m in SCOPE_MODULES_C20):
+            continue
+        if not (fn.decorators & (MEMOISING_DECORATORS - {'cached_property'})):
+            continue
+        n += 1
+        if fn.name.startswith('_'):
+            run.ok('R-STATE', f'{fn.qual}: memoised private helper', fn.loc(), 'call sites are inside the package; effects on its results are judged there')
+            continue
+        try:
+            res = A.ev.entry(fn).result
+        except Exception:
+            res = None
+
+        def has_array(v, depth=0):
+            if v is None or depth > 3:
+                return None
+            if v.tup is not None:
+                rs = [has_array(x, depth + 1) for x in v.tup]
+                return True if any(r is True for r in rs) else (None if any(r is None for r in rs) else False)
+            if v.kind is TOP:
+                return None
+            return bool(v.kind & {'array', 'list', 'dict'})
+        arr = has_array(res)
+        frozen = any(isinstance(x, ast.Attribute) and x.attr in ('setflags', 'writeable') for x in ast.walk(fn.node))
+        if arr is False or frozen:
+            run.ok('R-STATE', f'{fn.qual}: memoised results are immutable', fn.loc(), 'no array among the results' if arr is False else 'marked read-only before they are returned')
+        elif arr is None:
+            run.unresolved('R-STATE', f'{fn.qual}: memoised results are immutable', fn.loc(), 'kind of the returned value not decided')
+        else:
+            run.violation('R-STATE', f'{fn.qual}: a public function does not hand the same writable arrays to every caller', fn.loc(),
+                          'the function is memoised and returns arrays: every call with equal arguments returns the SAME objects, so what a caller writes into its result is '
+                          'what the next call returns - results depend on the history of earlier calls', construct=f'R-STATE::{fn.qual}::memoised-arrays')
+    run.count('memoising functions in scope', n)
+
+
 def check_state(run, A):
+    check_memoised_results(run, A)
     prog, ev = A.prog, A.ev
     scope = public_callables(prog, SCOPE_MODULES_C20, include_private=True)
     n_setattr = 0
